@@ -184,7 +184,7 @@ class SessionCheck(Check):
     def budget(self, tier):
         if tier == "quick":
             return {"runs": 320, "chunk": 4, "wall": 200, "run_timeout": 240, "min_wall": 60}
-        return {"runs": 4000, "chunk": 8, "wall": 1700, "run_timeout": 900, "min_wall": 300}
+        return {"runs": 1400, "chunk": 4, "wall": 1500, "run_timeout": 900, "min_wall": 300}
 
     def preload(self):
         import molgri.space.rotobj  # noqa: F401
@@ -205,8 +205,9 @@ class SessionCheck(Check):
         elif r < 0.9:
             alg = rng.choice(["cube4D", "cube4D", "randomQ"])
             if thorough:
-                N = rng.choice([rng.randint(1, 17), rng.randint(4, 40), rng.choice([8, 9, 40, 41]),
-                                rng.randint(4, 60)])
+                # (a 4-D grid above 40 points needs the level-2 hypercube: ~10 s per construction)
+                N = rng.choice([rng.randint(1, 17), rng.randint(4, 40), rng.randint(4, 30), rng.choice([8, 9, 40, 41]),
+                                rng.randint(4, 60) if rng.random() < 0.3 else rng.randint(4, 17)])
             else:
                 N = rng.choice([rng.randint(1, 8), rng.randint(4, 17), 8, 9, rng.randint(4, 17)])
         elif r < 0.95:
